@@ -66,14 +66,20 @@ def _check_builtin(kind, addr, n):
     return None
 
 
+def num(v, style):
+    """a number of the `.map` directive in the literal styles the scanner accepts"""
+    return {"hex": f"{v:#x}", "dec": str(v), "bin": f"{v:#b}"}[style]
+
+
 def map_program(cfg):
     lines = []
     for i, e in enumerate(cfg):
-        l = f".map identifier={e['id']} bank_range={e['lo']:#x},{e['hi']:#x} addr_range={e['alo']:#x},0xffff mask={e['mask']:#x}"
+        st = e.get("style", "hex")
+        l = f".map identifier={e['id']} bank_range={num(e['lo'], st)},{num(e['hi'], st)} addr_range={num(e['alo'], st)},{num(0xffff, st)} mask={num(e['mask'], st)}"
         if e["ram"]:
             l += " writable=1"
         if e["mirror"]:
-            l += f" mirror_bank_range={e['mirror'][0]:#x},{e['mirror'][1]:#x}"
+            l += f" mirror_bank_range={num(e['mirror'][0], st)},{num(e['mirror'][1], st)}"
         lines.append(l)
     return "\n".join(lines) + "\n"
 
@@ -150,7 +156,7 @@ def gen_cfg(rng):
             if len(banks) == sum(c - a + 1 for a, c in rngs) and not (banks & used):
                 used |= banks
                 mask = rng.choice([0x8000, 0x10000])
-                cfg.append({"id": i + 1, "lo": lo, "hi": hi, "mask": mask, "alo": 0x10000 - mask, "ram": rng.random() < 0.25, "mirror": mirror})
+                cfg.append({"id": i + 1, "lo": lo, "hi": hi, "mask": mask, "alo": 0x10000 - mask, "ram": rng.random() < 0.25, "mirror": mirror, "style": rng.choice(["hex", "hex", "dec", "bin"])})
                 break
     return cfg
 
